@@ -18,6 +18,8 @@
      A  the Acknowledge handler: updateSessionAck (p.mu.Lock; session.mu.Lock; Unlock; Unlock), then
         maybeManageWALRetention: p.mu.RLock .. RUnlock (minimum over the sessions), then WAL.ManageRetention, which takes
         the WAL lock.  RetentionHoldsRead = TRUE is the seeded variant in which the read lock is still held there.
+     N  the NegativeAcknowledge handler (resendEntries): reads the WAL (WAL lock), then session.mu.Lock; Send; Unlock.
+        ResendHoldsSession = TRUE is the seeded variant that takes session.mu first and holds it across the WAL read.
    The session's stream may break at any moment (`broken`); sends on it then fail (they never block here: blocking
    sends are the open finding KF_C15_stalled_reader_blocks_primary and are not the subject of this module).
 
@@ -32,6 +34,7 @@ CONSTANTS OldOrder,        \* catch-up reads the WAL under p.mu.RLock (before fi
           SyncNotify,      \* the WAL also notifies OnWALSync (p.mu.Lock) inside Append (SyncImmediate)
           UnregUnderRead,  \* seeded: W unregisters after a failed push under its own read lock
           HbLeak,          \* seeded: H leaks session.mu after a failed heartbeat send
+          ResendHoldsSession, \* seeded: the NegativeAcknowledge handler takes session.mu BEFORE it reads the WAL and keeps it
           RetentionHoldsRead  \* seeded: A still holds p.mu for reading while WAL.ManageRetention takes the WAL lock
 
 VARIABLES pc,       \* program counter per goroutine
@@ -43,7 +46,7 @@ VARIABLES pc,       \* program counter per goroutine
           broken    \* the session's stream is broken
 
 vars == <<pc, wal, smu, readers, writer, pending, broken>>
-G == {"W", "C", "R", "H", "A"}
+G == {"W", "C", "R", "H", "A", "N"}
 
 Init == pc = [g \in G |-> "idle"] /\ wal = "" /\ smu = "" /\ readers = {} /\ writer = "" /\ pending = {} /\ broken = FALSE
 
@@ -117,10 +120,22 @@ A7 == pc["A"] = "retain" /\ Acq(wal, "A") /\ wal' = "A" /\ Goto("A", "retained")
 A8 == pc["A"] = "retained" /\ wal' = "" /\ readers' = readers \ {"A"} /\ Goto("A", "idle") /\ UNCHANGED <<smu, writer, pending, broken>>
 ANext == A1 \/ A2 \/ A3 \/ A4 \/ A5 \/ A6 \/ A7 \/ A8
 
+(* N: NegativeAcknowledge handler (resendEntries): reads the WAL, then session.mu.Lock; Send; Unlock *)
+N1 == /\ pc["N"] = "idle"
+      /\ IF ResendHoldsSession THEN Acq(smu, "N") /\ smu' = "N" ELSE UNCHANGED smu
+      /\ Goto("N", "read") /\ UNCHANGED <<wal, readers, writer, pending, broken>>
+N2 == pc["N"] = "read" /\ Acq(wal, "N") /\ wal' = "N" /\ Goto("N", "readdone") /\ UNCHANGED <<smu, readers, writer, pending, broken>>
+N3 == pc["N"] = "readdone" /\ wal' = "" /\ Goto("N", "slock") /\ UNCHANGED <<smu, readers, writer, pending, broken>>
+N4 == /\ pc["N"] = "slock"
+      /\ IF ResendHoldsSession THEN UNCHANGED smu ELSE Acq(smu, "N") /\ smu' = "N"
+      /\ Goto("N", "send") /\ UNCHANGED <<wal, readers, writer, pending, broken>>
+N5 == pc["N"] = "send" /\ smu' = "" /\ Goto("N", "idle") /\ UNCHANGED <<wal, readers, writer, pending, broken>>
+NNext == N1 \/ N2 \/ N3 \/ N4 \/ N5
+
 Break == ~broken /\ broken' = TRUE /\ UNCHANGED <<pc, wal, smu, readers, writer, pending>>
 
-Next == WNext \/ CNext \/ RNext \/ HNext \/ ANext \/ Break
-Spec == Init /\ [][Next]_vars /\ SF_vars(WNext) /\ SF_vars(CNext) /\ SF_vars(RNext) /\ SF_vars(HNext) /\ SF_vars(ANext)
+Next == WNext \/ CNext \/ RNext \/ HNext \/ ANext \/ NNext \/ Break
+Spec == Init /\ [][Next]_vars /\ SF_vars(WNext) /\ SF_vars(CNext) /\ SF_vars(RNext) /\ SF_vars(HNext) /\ SF_vars(ANext) /\ SF_vars(NNext)
 
 LocksConsistent == /\ (writer # "" => readers = {})
                    /\ (wal = "W" <=> pc["W"] \notin {"idle"})
